@@ -1465,8 +1465,9 @@ def td_scalar_ends_family(tier='thorough'):
 def range_mentions_index_family():
     """round 4: the RANGE of a ForLoopPT refers to a parameter that has the loop index's own name (legal: the range is
     evaluated outside the loop).  Second capture site of the former finding mapping-captures-loop-index: the closed form
-    substituted `start + i*step` under Sum(..., (i, ...)).  Outside Wf.wf (the model's loop_sum would capture as the old
-    code did): judged by the Python oracle (`extern`)."""
+    substituted `start + i*step` under Sum(..., (i, ...)).  Round 6: INSIDE Wf.wf (Model.loop_sum binds the Sum over a
+    fresh name like ForLoopPulseTemplate._sum_index; C07_for_closed_form has no side condition on the range), so these
+    cases are strict: judged by check_corr against the Coq model and by check_spec."""
     cs = []
     body_v = {'k': 'const', 'd': C(1), 'vals': {'A': mul(V('i1'), V('a'))}}
     body_d = {'k': 'const', 'd': add(V('i1'), C(1)), 'vals': {'A': V('i1')}}
@@ -1480,7 +1481,85 @@ def range_mentions_index_family():
                         ({'k': 'seq', 'ps': [loop, {'k': 'const', 'd': C(1), 'vals': {'A': C(1)}}]}, {'i1': '2', 'a': '3/4'})]
             for t, params in variants:
                 cs.append({'kind': 'pulse', 'pt': t, 'params': used_params(t, params), 'pad': '1', 'src': 'range-mentions-index',
-                           'shapes': [], 'extern': True})
+                           'shapes': []})
+    return cs
+
+
+def range_param_is_inner_index_family():
+    """round 6 (found while removing the domain restriction above): the range of an OUTER loop refers to a parameter that
+    has the name of an INNER loop's index (legal: the outer range is evaluated outside both loops).  Third capture site:
+    ForLoopPT.duration / integral substituted `start + j*step` for the outer index into the body's closed form, whose
+    Sum(..., (k, ...)) captured the parameter k.  ForLoopPT(ForLoopPT(ConstantPT('1+i', {A: 'i+k'}), 'k', 2), 'i', ('k', 'k+2'))
+    at k = 3: duration 8, program lasts 18.  Repaired in /repo this round; strict cases."""
+    cs = []
+    bodies = [{'k': 'const', 'd': add(C(1), V('i1')), 'vals': {'A': add(V('i1'), V('i2'))}},
+              {'k': 'const', 'd': C(1), 'vals': {'A': mul(V('i1'), V('i2')), 'B': V('i1')}}]
+    ranges = ((V('i2'), add(V('i2'), C(2)), C(1)),      # start and stop mention the inner index's name
+              (C(0), C(4), V('i2')),                    # step
+              (V('i2'), C(0), C(-1)),                   # start, negative step
+              (C(1), V('i2'), C(1)))                    # stop only (not substituted into the body: never captured)
+    for body in bodies:
+        for inner_range in ((C(0), C(2), C(1)), (C(0), V('m'), C(1))):
+            inner = {'k': 'for', 'i': 'i2', 'start': inner_range[0], 'stop': inner_range[1], 'step': inner_range[2], 'b': body}
+            for st, sp, se in ranges:
+                outer = {'k': 'for', 'i': 'i1', 'start': st, 'stop': sp, 'step': se, 'b': inner}
+                variants = [(outer, {'i2': '2', 'm': '3'}),
+                            ({'k': 'seq', 'ps': [outer, {'k': 'const', 'd': C(1), 'vals': dict((c, C(1)) for c in body['vals'])}]},
+                             {'i2': '3', 'm': '2'}),
+                            ({'k': 'rep', 'n': C(2), 'b': outer}, {'i2': '2', 'm': '1'})]
+                for t, params in variants:
+                    cs.append({'kind': 'pulse', 'pt': t, 'params': used_params(t, params), 'pad': '1',
+                               'src': 'range-param-is-inner-index', 'shapes': []})
+    # the sequence between the loops, and the inner loop mapped (the Sum sits below another node)
+    inner = {'k': 'for', 'i': 'i2', 'start': C(0), 'stop': C(2), 'step': C(1), 'b': bodies[0]}
+    mid = {'k': 'seq', 'ps': [inner, {'k': 'const', 'd': V('i1'), 'vals': {'A': C(1)}}]}
+    t = {'k': 'for', 'i': 'i1', 'start': V('i2'), 'stop': add(V('i2'), C(3)), 'step': C(1), 'b': mid}
+    cs.append({'kind': 'pulse', 'pt': t, 'params': used_params(t, {'i2': '1'}), 'pad': '1', 'src': 'range-param-is-inner-index', 'shapes': []})
+    t = {'k': 'for', 'i': 'i1', 'start': V('i2'), 'stop': add(V('i2'), C(2)), 'step': V('i2'), 'b': {'k': 'rep', 'n': C(2), 'b': inner}}
+    cs.append({'kind': 'pulse', 'pt': t, 'params': used_params(t, {'i2': '2'}), 'pad': '1', 'src': 'range-param-is-inner-index', 'shapes': []})
+    return cs
+
+
+def round6_seed_class_family():
+    """round 6, classes of seeds C07-9 / C07-10 (both were caught at first contact by older families; these cases pin the
+    classes deterministically): (9) `scalar - pt` with a channel mapping that covers a STRICT, non-empty subset of the
+    channels - the channels outside the mapping are negated, in atoms, loops and sequences, next to + and * (unaffected);
+    (10) tables / point pulses that are constant up to a JUMP entry (a constant-waveform short cut must not swallow the
+    jump), incl. a first entry at a finite time, inside loops and sequences, and next to hold / linear neighbours."""
+    cs = []
+    def case(t, params, src):
+        cs.append({'kind': 'pulse', 'pt': t, 'params': used_params(t, params), 'pad': '1', 'src': src, 'shapes': []})
+    two = {'k': 'const', 'd': C(2), 'vals': {'A': V('a'), 'B': C(1)}}
+    three = {'k': 'table', 'ch': {'A': [[C(0), C(1), 'hold'], [C(1), V('a'), 'linear']], 'B': [[C(0), C(2), 'hold'], [C(1), C(2), 'hold']],
+                                  'C': [[C(0), V('a'), 'hold'], [C(1), C(0), 'linear']]}}
+    loop = {'k': 'for', 'i': 'i1', 'start': C(0), 'stop': C(3), 'step': C(1),
+            'b': {'k': 'const', 'd': C(1), 'vals': {'A': V('i1'), 'B': add(V('i1'), C(1))}}}
+    seq = {'k': 'seq', 'ps': [two, {'k': 'const', 'd': C(1), 'vals': {'A': C(3), 'B': V('a')}}]}
+    for inner, maps in ((two, ({'A': C(2)}, {'B': V('a')})), (three, ({'A': C(2)}, {'B': C(1), 'C': V('a')}, {'C': C(3)})),
+                        (loop, ({'A': C(2)}, {'B': C(1)})), (seq, ({'B': C(2)},))):
+        for m in maps:
+            for op in ('-', '+', '*'):
+                case({'k': 'arithr', 'op': op, 's': {'map': m}, 'b': inner}, {'a': '3'}, 'seed-class:partial-map-left-' + op)
+            case({'k': 'arithl', 'op': '-', 's': {'map': m}, 'b': inner}, {'a': '3'}, 'seed-class:partial-map-right--')
+    # (10)
+    def tb(ents):
+        return {'k': 'table', 'ch': {'A': ents}}
+    jumps = [tb([[C(0), C(1), 'hold'], [C(2), C(1), 'hold'], [C(4), V('a'), 'jump']]),
+             tb([[C(3), C(1), 'hold'], [C(5), V('a'), 'jump']]),
+             tb([[C(0), C(1), 'hold'], [C(1), C(1), 'linear'], [C(2), V('a'), 'jump']]),
+             tb([[C(0), C(1), 'hold'], [C(1), V('a'), 'jump'], [C(2), V('a'), 'hold']]),
+             tb([[C(0), C(1), 'hold'], [C(1), V('a'), 'jump'], [C(2), C(1), 'jump']]),
+             tb([[C(0), C(1), 'hold'], [C(1), C(1), 'jump'], [C(3), V('a'), 'jump']]),
+             {'k': 'table', 'ch': {'A': [[C(0), C(1), 'hold'], [C(2), V('a'), 'jump']], 'B': [[C(0), C(2), 'hold'], [C(2), C(2), 'hold']]}},
+             {'k': 'point', 'cs': ['A', 'B'], 'ents': [[C(0), {'vec': [C(1), C(2)]}, 'hold'], [C(1), {'vec': [C(1), C(2)]}, 'hold'],
+                                                      [C(2), {'vec': [V('a'), C(2)]}, 'jump']]},
+             {'k': 'point', 'cs': ['A'], 'ents': [[C(1), {'s': C(1)}, 'hold'], [C(3), {'s': V('a')}, 'jump']]}]
+    for t in jumps:
+        case(t, {'a': '3'}, 'seed-class:constant-then-jump')
+        case({'k': 'rep', 'n': C(2), 'b': t}, {'a': '-2'}, 'seed-class:constant-then-jump')
+    t = tb([[C(0), V('i1'), 'hold'], [C(1), V('i1'), 'hold'], [C(2), add(V('i1'), V('a')), 'jump']])
+    case({'k': 'for', 'i': 'i1', 'start': C(0), 'stop': C(3), 'step': C(1), 'b': t}, {'a': '2'}, 'seed-class:constant-then-jump')
+    case({'k': 'seq', 'ps': [jumps[0], jumps[1]]}, {'a': '5'}, 'seed-class:constant-then-jump')
     return cs
 
 
@@ -1629,7 +1708,7 @@ def known_class_family():
 
 def gen_cases(rng, tier, ctx):
     cases = handmade() + blind_class_families(tier) + capture_family()
-    cases += zero_count_family(tier) + td_scalar_ends_family(tier) + range_mentions_index_family() + coverage_families()
+    cases += zero_count_family(tier) + td_scalar_ends_family(tier) + range_mentions_index_family() + range_param_is_inner_index_family() + round6_seed_class_family() + coverage_families()
     cases += known_class_family()
     if tier == 'quick':
         cases += shared_body_forests(rng, 2)
